@@ -193,7 +193,8 @@ pub fn requests_neighbourhood(set: &[RouteSpec]) -> Vec<(String, String)> {
     let mut paths: Vec<Vec<String>> = vec![vec![]];
     let mut push = |p: Vec<String>| { if !paths.contains(&p) { paths.push(p) } };
     for r in set {
-        let mut fills: Vec<String> = vec!["v".into()]; fills.extend(statics.iter().cloned());
+        // params are filled with a fresh value and with one static segment of the set (a param value that equals a static sibling)
+        let mut fills: Vec<String> = vec!["v".into()]; fills.extend(statics.iter().take(1).cloned());
         for fill in &fills {
             let inst: Vec<String> = r.segs.iter().map(|s| if is_param(s) { fill.clone() } else { s.clone() }).collect();
             push(inst.clone());
@@ -206,7 +207,8 @@ pub fn requests_neighbourhood(set: &[RouteSpec]) -> Vec<(String, String)> {
     for p in &paths {
         let base = if p.is_empty() { "/".to_string() } else { p.iter().map(|s| format!("/{s}")).collect::<String>() };
         let variants = if p.is_empty() { vec!["/".to_string(), "//".into()] } else { vec![base.clone(), format!("{base}/")] };
-        for v in variants { for m in ["GET", "POST", "HEAD", "PUT", "OPTIONS"] { out.push((m.to_string(), v.clone())) } }
+        let exact = set.iter().any(|r| r.segs.len() == p.len() && r.segs.iter().zip(p).all(|(a, b)| is_param(a) && !b.is_empty() || a == b));
+        for v in variants { for m in ["GET", "POST", "HEAD", "PUT", "OPTIONS"] { if !exact && matches!(m, "PUT" | "OPTIONS") { continue } out.push((m.to_string(), v.clone())) } }
     }
     out
 }
@@ -427,7 +429,7 @@ pub fn run(ctx: &mut Ctx) {
     }
     ctx.extra.insert("rule".into(), json!("case = (route set + method sets, declaration shape, registration order, request); configurations are built by the real registration/finalization code, requests go through the real Request::read / Router::handle / Response::send; non-trivial = the route set has a param route or more than one route; collision = a request segment is a strict byte extension or a strict prefix of a static pattern at the same position (the byte-prefix shortcut of the radix matcher)"));
     ctx.extra.insert("bounds".into(), json!({"segments": SEGS, "plans(depth,set size)": if quick { json!([[2,1],[2,2],[3,1]]) } else { json!([[3,1],[3,2],[2,3]]) }, "method_sets": ["GET","POST","GET+POST", "all 31 subsets on single-route apps"], "thinning": "pairs of deep routes: method-set assignments equal or {one method, both methods}; two depth-3 routes only when their first segments can meet", "shapes": ["flat","split","mount1","mount2","nested","inline","mount-one(i)"], "orders": if quick { "all permutations up to 3 items, 3 orders beyond" } else { "all permutations up to 4 items" },
-        "requests": "route sets of depth <=2: all paths of depth <= max+1 over the per-set segment alphabet x trailing-slash variants x 7 methods; sets containing a depth-3 route: every route instance, all its single-segment mutations, one segment dropped / appended x 5 methods"}));
+        "requests": "route sets of depth <=2: all paths of depth <= max+1 over the per-set segment alphabet x trailing-slash variants x 7 methods; sets containing a depth-3 route: every route instance (x 5 methods), all its single-segment mutations, one segment dropped / appended (x GET, POST, HEAD)"}));
     ctx.traces_validated = ctx.transitions;
 }
 
